@@ -287,7 +287,7 @@ Record dump := mkdump {
 Inductive txn := Txn (ops : list op) (ok : bool) (do_commit : bool) (d : dump).
 (* CSrv: a scripted probe on a real QueryServer (internal_batch_modify / internal_modify +
    name_to_uuid): for each probed name, the uuid a full scan finds vs the uuid name_to_uuid
-   answers after the commit (None = no answer).  kind 2 = batch name swap, 1 = stale lookup. *)
+   answers after the commit (None = no answer).  kind 2 = rename chain through replication, 1 = stale lookup, 0 = the probe itself crashed. *)
 Inductive case := CHist (txns : list txn) | CSrv (kind : N) (expected observed : list (option N)).
 
 (* equality of two finite maps with duplicate-free keys: same size, same lookups *)
